@@ -16,65 +16,13 @@
 (* No intermediate value exceeds 2^31 - 1: limb products are formed on     *)
 (* 8-bit digits.                                                           *)
 (***************************************************************************)
-EXTENDS Integers, Sequences, Bitwise
+EXTENDS Word64Core, Bitwise
 
-B16 == 65536
-
-W0   == <<0, 0, 0, 0>>
-W1   == <<0, 0, 0, 1>>
-WM1  == <<65535, 65535, 65535, 65535>>
-WMIN == <<32768, 0, 0, 0>>
-WMAX == <<32767, 65535, 65535, 65535>>
-
-IsWord(w) == /\ DOMAIN w = 1..4
-             /\ \A i \in 1..4 : w[i] \in 0..65535
-
-P2 == <<1, 2, 4, 8, 16, 32, 64, 128, 256, 512, 1024, 2048, 4096, 8192,
-        16384, 32768, 65536>>
-Pow2(r) == P2[r + 1]                       \* r \in 0..16
-
-\* little-endian limb i \in 0..3 of w
-Limb(w, i) == w[4 - i]
-
-WIsNeg(w) == w[1] >= 32768
-WIsZero(w) == w = W0
-
-\* a small non-negative TLC integer as a word (0 <= n < 2^31)
-WFromNat(n) == <<0, 0, n \div B16, n % B16>>
-
-WAdd(a, b) ==
-  LET s0 == a[4] + b[4]
-      s1 == a[3] + b[3] + (s0 \div B16)
-      s2 == a[2] + b[2] + (s1 \div B16)
-      s3 == a[1] + b[1] + (s2 \div B16)
-  IN  <<s3 % B16, s2 % B16, s1 % B16, s0 % B16>>
-
-WNot(a) == <<65535 - a[1], 65535 - a[2], 65535 - a[3], 65535 - a[4]>>
-WNeg(a) == WAdd(WNot(a), W1)
-WSub(a, b) == WAdd(WAdd(a, WNot(b)), W1)
-
-\* a small TLC integer (|n| < 2^31) as a word
-WFromInt(n) == IF n >= 0 THEN WFromNat(n) ELSE WNeg(WFromNat(-n))
-
+\* limbs, + - unary-, ~, comparisons, shifts, WBit and WTrunc live in Word64Core (proved correct for all words with
+\* Apalache, AP_Word64.tla); the bit-wise operators need Bitwise, multiplication and division need recursion
 WAnd(a, b) == <<a[1] & b[1], a[2] & b[2], a[3] & b[3], a[4] & b[4]>>
 WOr(a, b)  == <<a[1] | b[1], a[2] | b[2], a[3] | b[3], a[4] | b[4]>>
 WXor(a, b) == <<a[1] ^^ b[1], a[2] ^^ b[2], a[3] ^^ b[3], a[4] ^^ b[4]>>
-
-LexLt(x, y) ==
-  \/ x[1] < y[1]
-  \/ /\ x[1] = y[1]
-     /\ \/ x[2] < y[2]
-        \/ /\ x[2] = y[2]
-           /\ \/ x[3] < y[3]
-              \/ /\ x[3] = y[3]
-                 /\ x[4] < y[4]
-
-WFlip(a) == <<(a[1] + 32768) % B16, a[2], a[3], a[4]>>
-WULt(a, b) == LexLt(a, b)                  \* unsigned <
-WLt(a, b)  == LexLt(WFlip(a), WFlip(b))    \* signed <
-WLe(a, b)  == a = b \/ WLt(a, b)
-
-WBool(p) == IF p THEN W1 ELSE W0
 
 -----------------------------------------------------------------------------
 \* Multiplication modulo 2^64 on eight 8-bit digits.
@@ -94,38 +42,6 @@ MulDigits(a, b, k, carry) ==               \* digits k..7 of the product
 WMul(a, b) ==
   LET d == MulDigits(a, b, 0, 0)           \* d[1] is the least significant digit
   IN  <<d[7] + 256 * d[8], d[5] + 256 * d[6], d[3] + 256 * d[4], d[1] + 256 * d[2]>>
-
------------------------------------------------------------------------------
-\* Shifts.  n \in 0..63.
-LimbOr0(w, i) == IF i \in 0..3 THEN Limb(w, i) ELSE 0
-
-WShlN(a, n) ==
-  LET q == n \div 16
-      r == n % 16
-      R(i) == ((LimbOr0(a, i - q) % Pow2(16 - r)) * Pow2(r))
-              + (LimbOr0(a, i - q - 1) \div Pow2(16 - r))
-  IN  <<R(3), R(2), R(1), R(0)>>
-
-WShrN(a, n) ==                             \* arithmetic
-  LET q == n \div 16
-      r == n % 16
-      fill == IF WIsNeg(a) THEN 65535 ELSE 0
-      L(i) == IF i \in 0..3 THEN Limb(a, i) ELSE fill
-      R(i) == (L(i + q) \div Pow2(r)) + ((L(i + q + 1) % Pow2(r)) * Pow2(16 - r))
-  IN  <<R(3), R(2), R(1), R(0)>>
-
-WLow6(w) == w[4] % 64                      \* the low six bits of a shift count
-WShl(a, c) == WShlN(a, WLow6(c))
-WShr(a, c) == WShrN(a, WLow6(c))
-
-WBit(a, i) == (Limb(a, i \div 16) \div Pow2(i % 16)) % 2        \* i \in 0..63
-
-\* reduction modulo 2^bits; identity for bits >= 64
-WTrunc(a, bits) ==
-  LET K(i) == IF bits >= 16 * (i + 1) THEN Limb(a, i)
-              ELSE IF bits <= 16 * i THEN 0
-              ELSE Limb(a, i) % Pow2(bits - 16 * i)
-  IN  <<K(3), K(2), K(1), K(0)>>
 
 -----------------------------------------------------------------------------
 \* Division.  Unsigned bit-serial restoring division; the remainder stays
